@@ -575,6 +575,15 @@ fn route_f<R: Round + 'static, const B: Word>(sig: &str, exp: &str, prec: usize,
             let v = (i64::try_from(&ibig(sig)).unwrap() as f64) * 2f64.powi(isz(exp) as i32);
             cast::<R, 2, B>(FBig::<R, 2>::try_from(v).unwrap())
         }
+        // impl TryFrom<f64 / f32> for Repr<2> (a second implementation beside the one for FBig)
+        "reprf64" => {
+            let v = (i64::try_from(&ibig(sig)).unwrap() as f64) * 2f64.powi(isz(exp) as i32);
+            cast::<R, 2, B>(FBig::<R, 2>::from_repr(Repr::<2>::try_from(v).unwrap(), Context::new(53)))
+        }
+        "reprf32" => {
+            let v = (i32::try_from(&ibig(sig)).unwrap() as f32) * 2f32.powi(isz(exp) as i32);
+            cast::<R, 2, B>(FBig::<R, 2>::from_repr(Repr::<2>::try_from(v).unwrap(), Context::new(24)))
+        }
         "fromf32" => {
             let v = (i32::try_from(&ibig(sig)).unwrap() as f32) * 2f32.powi(isz(exp) as i32);
             cast::<R, 2, B>(FBig::<R, 2>::try_from(v).unwrap())
@@ -597,11 +606,56 @@ fn route_f<R: Round + 'static, const B: Word>(sig: &str, exp: &str, prec: usize,
         "fromi64" => FBig::<R, B>::from(i64::try_from(&(ibig(sig) * IBig::from(B).pow(isz(exp) as usize))).unwrap()),
         // ---- results that are really rounded (value not predicted: invariants and comparisons only);
         // `p` is a second significand one digit position below
-        "r_add" => fin::<R, B>(sig, exp, pw()) + fin::<R, B>(p, &hisz(isz(exp) - 1), 0),
-        "r_sub" => fin::<R, B>(sig, exp, pw()) - fin::<R, B>(p, &hisz(isz(exp) + 1), 0),
-        "r_mul" => fin::<R, B>(sig, exp, pw()) * fin::<R, B>(p, "0", 0),
-        "r_div" => fin::<R, B>(sig, exp, pw()) / fin::<R, B>(p, "0", 0),
+        // Context-level entry points given an operand longer than the context precision (rounded through repr_round_ref):
+        // p digits are dropped
+        "r_ctxadd0" | "r_ctxsub0" | "r_ctxdiv1" | "r_ctxmul1" | "r_ctxpowi1" => {
+            let x = fin::<R, B>(sig, exp, 0);
+            let cp = x.repr().digits().saturating_sub(usz(p)).max(1);
+            let c = Context::<R>::new(cp);
+            match route {
+                "r_ctxadd0" => c.add(&Repr::<B>::zero(), x.repr()).value(),
+                "r_ctxsub0" => c.sub(&Repr::<B>::zero(), x.repr()).value(),
+                "r_ctxdiv1" => c.div(x.repr(), &Repr::<B>::one()).value(),
+                "r_ctxmul1" => c.mul(x.repr(), &Repr::<B>::one()).value(),
+                _ => c.powi(x.repr(), IBig::ONE).value(),
+            }
+        }
+        // Context::add / sub of two values with the same exponent (the sum ends in zero digits)
+        "r_ctxaeq" => Context::<R>::new(pw()).add(fin::<R, B>(sig, exp, 0).repr(), fin::<R, B>(p, exp, 0).repr()).value(),
+        "r_ctxseq" => Context::<R>::new(pw()).sub(fin::<R, B>(sig, exp, 0).repr(), fin::<R, B>(p, exp, 0).repr()).value(),
+        // + - * / in the four ownership forms (separate operator bodies in add.rs / mul.rs / div.rs); `p` is a second
+        // significand: one digit position below (add), above (sub), at the same exponent (aeq, seq: the sums and
+        // differences that end in zero digits), at exponent 0 (mul, div)
+        r if r.len() >= 5 && matches!(&r[..5], "r_add" | "r_sub" | "r_aeq" | "r_seq" | "r_mul" | "r_div") => {
+            let op = &r[2..5];
+            let form = if r.len() > 6 { &r[6..] } else { "vv" };
+            let x = fin::<R, B>(sig, exp, pw());
+            let y = match op {
+                "add" => fin::<R, B>(p, &hisz(isz(exp) - 1), 0),
+                "sub" => fin::<R, B>(p, &hisz(isz(exp) + 1), 0),
+                "aeq" | "seq" => fin::<R, B>(p, exp, 0),
+                _ => fin::<R, B>(p, "0", 0),
+            };
+            macro_rules! form {
+                ($o:tt) => {
+                    match form {
+                        "vv" => x $o y,
+                        "vr" => x $o &y,
+                        "rv" => &x $o y,
+                        "rr" => &x $o &y,
+                        _ => panic!("unknown ownership form {}", form),
+                    }
+                };
+            }
+            match op {
+                "add" | "aeq" => form!(+),
+                "sub" | "seq" => form!(-),
+                "mul" => form!(*),
+                _ => form!(/),
+            }
+        }
         "r_sqr" => fin::<R, B>(sig, exp, pw()).sqr(),
+        "r_cubic" => fin::<R, B>(sig, exp, pw()).cubic(),
         "r_sqrt" => {
             let x = fin::<R, B>(sig, exp, pw());
             (if pos { x } else { -x }).sqrt()
